@@ -146,20 +146,24 @@ def toks(rng, e, lvl, extra=0.0):
     if k == 'seq':
         out = []
         for s in e[1]:
-            if s[0] == 'def':
-                out += [tk_id(s[1]), Tk('as', '=', 'p')] + toks(rng, s[2], L_LAMBDA, extra)
-            elif s[0] == 'deffun':
-                out += [tk_id(s[1]), LP()]
-                for i, p in enumerate(s[2]):
-                    if i:
-                        out.append(Tk('cm', ',', 'p'))
-                    out.append(tk_id(p))
-                out += [RP(), Tk('as', '=', 'p')] + toks(rng, s[3], L_LAMBDA, extra)
-            else:
-                out += toks(rng, s, L_ASSIGN, extra)
+            out += stmt_toks(rng, s, extra)
             out.append(Tk('se', ';', 'p'))
         return out + toks(rng, e[2], L_ASSIGN, extra)
     raise ValueError(k)
+
+
+def stmt_toks(rng, s, extra=0.0):
+    """one statement of a sequence: `x = e`, `f(a, b) = e` or an expression"""
+    if s[0] == 'def':
+        return [tk_id(s[1]), Tk('as', '=', 'p')] + toks(rng, s[2], L_LAMBDA, extra)
+    if s[0] == 'deffun':
+        out = [tk_id(s[1]), LP()]
+        for i, p in enumerate(s[2]):
+            if i:
+                out.append(Tk('cm', ',', 'p'))
+            out.append(tk_id(p))
+        return out + [RP(), Tk('as', '=', 'p')] + toks(rng, s[3], L_LAMBDA, extra)
+    return toks(rng, s, L_ASSIGN, extra)
 
 
 def spell(rng, tl, tight=0.3):
@@ -592,6 +596,89 @@ def gen_tree(rng, depth, syms, scope, funs, names, want='num'):
     return ('bin', rng.choice(['+', '+', '-', '-', '*', '*', '/', '/']), sub(), sub())
 
 
+BUILTIN_NAMES = ['today', 'amount', 'total', 'now', 'account', 'payee']
+
+
+def gen_scoping(rng, names):
+    """The scoping family: lambdas / function definitions nested 2-4 deep.  Parameters re-use the
+    names of (i) earlier let-bindings, (ii) earlier functions, (iii) built-in report functions,
+    (iv) parameters of enclosing levels; every body refers to the parameters of all enclosing
+    levels; each level is applied at once, or named with `g = (p -> ..)` or `g(p) = ..` and called in
+    the body that defines it (never after the enclosing call has returned, never from a deeper
+    level: those are the listed findings F36/F37).  -> (top-level statements, body)"""
+    num = lambda v: ('lit', Lit(str(v), 0, None))
+    stmts, lets, funs = [], [], []
+    for _ in range(rng.choice([1, 2, 2, 3])):
+        x = names.fresh('x')
+        stmts.append(('def', x, num(rng.randrange(10, 60))))
+        lets.append(x)
+    for _ in range(rng.choice([0, 1, 1, 2])):
+        f, p = names.fresh('f'), names.fresh('p')
+        stmts.append(('deffun', f, [p], ('bin', rng.choice(['+', '*']), ('id', p), num(rng.randrange(2, 9)))))
+        funs.append(f)
+    rng.shuffle(stmts)
+    shadowable = lets + funs + BUILTIN_NAMES
+    depth = rng.choice([2, 2, 3, 3, 4])
+
+    def visible_expr(params, unshadowed, must=()):
+        """an arithmetic expression over the visible names; `must` are all referred to"""
+        terms = [('id', n) for n in must]
+        for n in unshadowed:
+            if rng.random() < 0.3:
+                terms.append(('id', n))
+        for f in funs:
+            if f not in params and rng.random() < 0.15:
+                terms.append(('call', ('id', f), [num(rng.randrange(1, 9))]))
+        if not terms or rng.random() < 0.5:
+            terms.append(num(rng.randrange(1, 9)))
+        rng.shuffle(terms)
+        e = terms[0]
+        for t in terms[1:]:
+            e = ('bin', rng.choice(['+', '+', '*', '-']), e, t)
+        return e
+
+    def level(k, params):
+        """the application of the level-k lambda, written where `params` (outermost first, names may
+        repeat: the last one wins) are in scope"""
+        own = []
+        for _ in range(rng.choice([1, 1, 2])):
+            r = rng.random()
+            cands = [n for n in shadowable if n not in own]
+            outer = [n for n in params if n not in own]
+            if r < 0.6 and cands:
+                own.append(rng.choice(cands))
+            elif r < 0.75 and outer:
+                own.append(rng.choice(outer))
+            else:
+                own.append(names.fresh('p'))
+        inner_params = params + own
+        vis = list(dict.fromkeys(inner_params))
+        unshadowed = [x for x in lets if x not in vis]
+        body = visible_expr(vis, unshadowed, must=vis)
+        if k < depth:
+            sub = level(k + 1, inner_params)
+            if sub[0] == 'seq':
+                body = ('seq', sub[1], ('bin', rng.choice(['+', '-', '*']), sub[2], body)) if rng.random() < 0.5 \
+                    else ('seq', sub[1], ('bin', '+', body, sub[2]))
+            else:
+                body = ('bin', rng.choice(['+', '-', '*']), body, sub) if rng.random() < 0.5 else ('bin', '+', sub, body)
+        outer_vis = list(dict.fromkeys(params))
+        args = [visible_expr(outer_vis, [x for x in lets if x not in outer_vis], must=outer_vis[-1:] if outer_vis and rng.random() < 0.6 else ())
+                for _ in own]
+        style = rng.choice(['imm', 'imm', 'named', 'deffun'])
+        if style == 'imm':
+            return ('call', ('lam', own, body), args)
+        g = names.fresh('g')
+        if style == 'named':
+            return ('seq', [('def', g, ('lam', own, body))], ('call', ('id', g), args))
+        return ('seq', [('deffun', g, own, body)], ('call', ('id', g), args))
+
+    top = level(1, [])
+    if top[0] == 'seq':
+        return stmts + list(top[1]), top[2]
+    return stmts, top
+
+
 def subtrees(e):
     yield e
     k = e[0]
@@ -763,7 +850,7 @@ def kc(r):
 
 
 class Case:
-    __slots__ = ('kind', 'ast', 'tl', 'text', 'sxs', 'tag')
+    __slots__ = ('kind', 'ast', 'tl', 'text', 'sxs', 'tag')   # tag: the define directives of a 'define' case
 
 
 def lits_of(tl):
@@ -973,6 +1060,58 @@ def mk_case(rng, kind, ast, extra=0.0, tight=0.3):
     return c
 
 
+def mk_define_case(rng, stmts, body):
+    """the top-level definitions go into the journal as `define` directives, the body is evaluated in
+    the REPL; the model and the oracle see the one sequence `d1; d2; ..; body`"""
+    c = Case()
+    c.kind, c.ast = 'define', ('seq', stmts, body)
+    parts = [stmt_toks(rng, st) for st in stmts]
+    btl = toks(rng, body, L_ASSIGN)
+    c.tl = []
+    for ptl in parts:
+        c.tl += ptl + [Tk('se', ';', 'p')]
+    c.tl += btl
+    c.sxs = [t.sx for t in c.tl]
+    c.tag = [spell(rng, ptl, 0.2) for ptl in parts]
+    c.text = spell(rng, btl, 0.2)
+    return c
+
+
+def run_define_batch(ctx, res, pool0, cases):
+    if not cases:
+        return
+    lines = open(ctx.path('teach.dat')).read().rstrip('\n').split('\n')
+    head = []
+    for c in cases:
+        head += ['define ' + d for d in c.tag]
+    path = ctx.path('defines.dat')
+    open(path, 'w').write('\n'.join(head + [''] + lines) + '\n')
+    out_v = [canon_val(b) for b in lib.run_repl(path, ["eval 'verif_rational(%s)'" % c.text for c in cases])]
+    mlines = [lib.sx(['case', 'df%d' % i, c03.pool_sx(pool0), ['pool0'] + c03.pool_sx(pool0)[1:], ['toks'] + c.sxs])
+              for i, c in enumerate(cases)]
+    model = {}
+    for l in lib.run_model('C15', mlines):
+        parts = l.split(' ', 2)
+        if len(parts) == 3:
+            model[(parts[0], parts[1])] = parts[2]
+    for i, c in enumerate(cases):
+        iv, mv = out_v[i], model.get(('df%d' % i, 'V'), '!missing')
+        res.evaluations += 1
+        res.traces += 1
+        res.count('cat:define')
+        full = '; '.join(c.tag) + ' [journal define directives]; ' + c.text
+        if kc(iv) != kc(mv) and not mv.startswith('ORDER-DEPENDENT'):
+            res.disagreements.append(dict(name='C15/define-value', case=full, impl=iv, model=mv))
+        j, cells = judge_value(c.ast, iv)
+        res.nontrivial.add(full)
+        if j:
+            res.violations.append(dict(key='value:define:%s' % j[0],
+                                       desc='with the journal directives %s, %s evaluates to %s, lexical scoping requires %s'
+                                            % (' / '.join('define ' + d for d in c.tag), c.text, iv, j[1]),
+                                       case=dict(expr=c.text, journal='\n'.join('define ' + d for d in c.tag) + '\n' + ctx.journal_text),
+                                       observed=iv, required=j[1]))
+
+
 def run(ctx, n_override=None):
     rng = ctx.rng
     res = lib.Result()
@@ -1032,6 +1171,18 @@ def run(ctx, n_override=None):
     for c0 in sorted({c.kind for c in cases}):
         sel = [c for c in cases if c.kind == c0]
         process(ctx, res, run_batch(ctx, res, journal, pool0, sel, 'd%s_' % c0), c0)
+    # --- 3b. the scoping family: as one expression, and with the definitions as `define` directives
+    nsc = ctx.scale(400, 3000) * scale
+    cases, dcases = [], []
+    for i in range(nsc):
+        stmts, body = gen_scoping(rng, Names('s' + enc(i)))
+        if i % 3 != 2:
+            cases.append(mk_case(rng, 'scope', ('seq', stmts, body), extra=rng.choice([0.0, 0.0, 0.2]), tight=rng.choice([0.0, 0.5])))
+        else:
+            dcases.append(mk_define_case(rng, stmts, body))
+    for k in range(0, len(cases), batch):
+        process(ctx, res, run_batch(ctx, res, journal, pool0, cases[k:k + batch], 'sc%d_' % k), 'scope')
+    run_define_batch(ctx, res, pool0, dcases)
     # --- 4. malformed / edge stream: printed text only
     cases = []
     for t in MALFORMED:
